@@ -148,7 +148,7 @@ func streePart(rep *core.Report, col *collector) {
 	rep.Extra["stree_bounds"] = fmt.Sprintf("<=%d intervals, %d lattice points, %d+%d query points", maxN, latticeN, len(maps[0].queries), len(maps[1].queries))
 	rep.Sample(2, map[string]any{"part": "stree", "value_map": maps[1].name, "values": maps[1].vals, "queries": maps[1].queries})
 	if nHit == 0 || nMiss == 0 || nShared == 0 || nNested == 0 || nAdjacent == 0 || nDup == 0 {
-		core.HarnessError("stree part vacuous: inside=%d outside=%d shared=%d nested=%d adjacent=%d dup=%d", nHit, nMiss, nShared, nNested, nAdjacent, nDup)
+		rep.Vacuous("stree part vacuous: inside=%d outside=%d shared=%d nested=%d adjacent=%d dup=%d", nHit, nMiss, nShared, nNested, nAdjacent, nDup)
 	}
 }
 
